@@ -2,6 +2,7 @@ import LyModel.Text.SpecLemmas
 import LyModel.XmlTree.Roundtrip
 import LyModel.Generated.JsonTyping
 import LyModel.JsonTree.Refine
+import LyModel.JsonTree.Faithful
 /-!
 # C12 — printed XML and JSON mean the same to any parser: property theorems (character-data level)
 
@@ -95,5 +96,30 @@ example :
     JsonTree.OkL [] forest ∧ JsonTree.AdjKind forest ∧
       JsonTree.printData forest = [123,34,109,58,108,34,58,91,123,34,107,34,58,34,97,34,125,93,44,34,109,58,122,34,58,49,125] := by
   refine ⟨by simp [JsonTree.OkL, JsonTree.Ok, JsonTree.AdjKind], by simp [JsonTree.AdjKind, JsonTree.JNode.sid, JsonTree.JNode.kind], by decide⟩
+
+/-- **Printed JSON means the tree to any RFC 8259 reader** (tree level, metadata-free trees): an independent JSON document
+    reader (`JsonDoc.parseDoc`: objects, arrays, strings with escapes and surrogate pairs, the number grammar, literal names,
+    insignificant white space — written from the RFC, cross-checked against Python's `json` on every run) applied to the output
+    of the model of `json_print_data` succeeds and reports exactly `JsonTree.jsonView forest`: one member per printed leaf /
+    container and one array member per run of printed leaf-list / list instances, in order, names module-qualified as RFC 7951
+    sec. 4 says, strings decoded to the stored bytes, numbers and booleans as the stored literal tokens, `empty` as `[null]`.
+    Hypotheses beyond `json_tree_refines_spec`: names are YANG identifiers, string values contain no NUL, literal values are JSON
+    number / boolean tokens (what the type plugins store as canonical values). -/
+theorem json_document_faithful (forest : List JsonTree.JNode) (hok : JsonTree.OkL [] forest) (hadj : JsonTree.AdjKind forest)
+    (hval : JsonTree.OkJL forest) :
+    JsonDoc.parseDoc (JsonTree.printData forest) = some (JsonTree.jsonView forest) := by
+  rw [JsonTree.printData_eq_spec forest hok hadj]
+  exact JsonTree.parseDoc_specData forest hval
+
+/-- non-vacuity: the forest of the example above (list with a skipped trailing instance, skipped leaf-list, leaf) -/
+example :
+    let k (v : Bytes) := JsonTree.JNode.mk .leaf 2 [109] [107] true [] .str v []
+    let forest := [JsonTree.JNode.mk .list 1 [109] [108] true [] .str [] [k [97]],
+                   JsonTree.JNode.mk .list 1 [109] [108] false [] .str [] [k [98]],
+                   JsonTree.JNode.mk .leaflist 3 [109] [113] false [] .lit [55] [],
+                   JsonTree.JNode.mk .leaf 4 [109] [122] true [] .lit [49] []]
+    JsonTree.OkJL forest := by
+  simp [JsonTree.OkJL, JsonTree.OkJ, JsonTree.ValueOk, JsonDoc.KeyOk, JsonDoc.LitOk]
+  decide
 
 end LyModel.Props.C12
